@@ -346,8 +346,10 @@ def flag_rerun(ctx, prop):
     """the dynamic part of the check again in child interpreters started with other flags: `-O` (asserts and `if __debug__`
     blocks are stripped) and `-OO`.  A concrete input found there is a violation here, labelled with the flag."""
     check = os.path.join(VERIF, "check")
-    for flags in (["-O"], ["-OO", "-X", "utf8"]):
-        env = dict(os.environ, VERIF_CHILD_MODE="1", VERIF_SEED=str(ctx.seed), PYAB_REPO=REPO)
+    ambient = ("import decimal; decimal.DefaultContext.prec = 5; decimal.setcontext(decimal.Context(prec=5)); "
+               "import random; random.seed(12345); import os; os.environ['TZ'] = 'Pacific/Chatham'")
+    for flags, prelude in ((["-O"], ""), (["-OO", "-X", "utf8"], ambient)):
+        env = dict(os.environ, VERIF_CHILD_MODE="1", VERIF_SEED=str(ctx.seed), PYAB_REPO=REPO, VERIF_CHILD_PRELUDE=prelude)
         try:
             p = subprocess.run(["/venv/bin/python"] + flags + [check, prop, "--tier", "quick"], capture_output=True, text=True, env=env, timeout=1200)
         except subprocess.TimeoutExpired:
@@ -360,8 +362,8 @@ def flag_rerun(ctx, prop):
             continue
         res = json.loads(line[len("CHILD-RESULT "):])
         for v in res["violations"]:
-            ctx.violation("under `python %s`: %s" % (" ".join(flags), v["what"]), dict(v["replay"] if isinstance(v["replay"], dict) else {"replay": v["replay"]},
-                                                                                  interpreter_flags=flags))
+            ctx.violation("under `python %s`%s: %s" % (" ".join(flags), " with a 5-digit decimal context, a seeded global RNG and another TZ" if prelude else "", v["what"]),
+                          dict(v["replay"] if isinstance(v["replay"], dict) else {"replay": v["replay"]}, interpreter_flags=flags, prelude=prelude))
         if res["violations"]:
             return
 
@@ -375,6 +377,8 @@ def main(prop, run, level="proof", lean_module=None, search=None, argv=None):
     seed = int(os.environ.get("VERIF_SEED", "0"))
     ctx = Ctx(prop, args.tier, seed, lean_module)
     child = os.environ.get("VERIF_CHILD_MODE")      # a re-run of the dynamic part under other interpreter flags (see flag_rerun)
+    if child and os.environ.get("VERIF_CHILD_PRELUDE"):
+        exec(os.environ["VERIF_CHILD_PRELUDE"], {})    # ambient state a host application might have set before using the library
     try:
         import common
         if child:
@@ -433,7 +437,12 @@ def main(prop, run, level="proof", lean_module=None, search=None, argv=None):
 
             def search(c, _s=_search):
                 if _s is not None:
-                    _s(c)
+                    try:
+                        _s(c)
+                    except Infra:
+                        raise
+                    except Exception as ex:  # noqa  (the deeper search met an exception of the changed implementation: go on with the other searches)
+                        c.notes.append("search raised: " + repr(ex)[:200])
                 if not c.violations:
                     flag_rerun(c, prop)
         code = decide(ctx, level, search)
